@@ -49,7 +49,7 @@ void harness(void) {
       rc = write_triple_quoted(&ctx, s, w.first + 3, w.last, (char) delim); }
 #else
     { int fold = vnd_bool(), prefix = vnd_bool();
-      V_ASSUME(pre_text(s, N, N, fold, prefix, CIF_LINE_LENGTH, WVERSION));
+      V_ASSUME(pre_text(s, N, N, fold, prefix, CIF_LINE_LENGTH, WVERSION, FOLDING_WINDOW));
       if (fold) V_COVER_OPT("folding"); if (prefix) V_COVER_OPT("prefixing");
       rc = write_text(&ctx, s, N, fold, prefix); }
 #endif
